@@ -56,11 +56,25 @@ func (s *aiState) bump(k string) {
 	}
 }
 
-func (s *aiState) key(live map[ssa.Value]bool) string {
+func (s *aiState) key(live map[ssa.Value]bool) string { return s.keyFor(nil, live) }
+
+// keyFor: identity of the state while exploring fn — the values of fn that live across its blocks, and every value
+// of other (enclosing) functions.
+func (s *aiState) keyFor(fn *ssa.Function, live map[ssa.Value]bool) string {
 	var parts []string
 	for v, a := range s.env {
-		if live == nil || live[v] {
-			parts = append(parts, v.Name()+"="+a)
+		var par *ssa.Function
+		if in, ok := v.(ssa.Instruction); ok {
+			par = in.Parent()
+		} else if p, ok := v.(*ssa.Parameter); ok {
+			par = p.Parent()
+		}
+		if live == nil || live[v] || (fn != nil && par != nil && par != fn) {
+			pn := ""
+			if par != nil {
+				pn = par.Name() + "."
+			}
+			parts = append(parts, pn+v.Name()+"="+a)
 		}
 	}
 	for k, v := range s.mem {
@@ -106,6 +120,7 @@ type AI struct {
 	Aborted     bool
 	visited     map[string]bool
 	live        map[ssa.Value]bool
+	liveMemo    map[*ssa.Function]map[ssa.Value]bool
 }
 
 func (ai *AI) val(st *aiState, v ssa.Value) string {
@@ -191,21 +206,40 @@ func (ai *AI) cellOf(addr ssa.Value) (string, bool) {
 }
 
 // Run explores all abstract paths of fn from its entry with the given initial state.
+// helperFrame collects the states in which an inlined helper returns.
+type helperFrame struct {
+	outs  []*aiState
+	rets  []string // abstract value of result 0 per out
+	depth int
+}
+
 func (ai *AI) Run(init *aiState) {
 	if ai.maxStates == 0 {
 		ai.maxStates = 200000
 	}
-	ai.visited = map[string]bool{}
+	ai.explore(ai.fn, init, nil)
+}
+
+func (ai *AI) liveOf(fn *ssa.Function) map[ssa.Value]bool {
+	if ai.liveMemo == nil {
+		ai.liveMemo = map[*ssa.Function]map[ssa.Value]bool{}
+	}
+	if m, ok := ai.liveMemo[fn]; ok {
+		return m
+	}
 	// only values that live across blocks are part of the state identity
-	ai.live = map[ssa.Value]bool{}
-	for _, b := range ai.fn.Blocks {
+	live := map[ssa.Value]bool{}
+	for _, p := range fn.Params {
+		live[p] = true
+	}
+	for _, b := range fn.Blocks {
 		for _, in := range b.Instrs {
 			v, ok := in.(ssa.Value)
 			if !ok {
 				continue
 			}
 			if _, isPhi := in.(*ssa.Phi); isPhi {
-				ai.live[v] = true
+				live[v] = true
 				continue
 			}
 			if v.Referrers() == nil {
@@ -213,22 +247,38 @@ func (ai *AI) Run(init *aiState) {
 			}
 			for _, r := range *v.Referrers() {
 				if r.Block() != b {
-					ai.live[v] = true
+					live[v] = true
 				}
 				if _, isPhi := r.(*ssa.Phi); isPhi {
-					ai.live[v] = true
+					live[v] = true
 				}
 			}
 		}
 	}
-	// liveness approximation: only phis and values used across blocks matter for the visited key; keep all.
-	type item struct {
-		b    *ssa.BasicBlock
-		pred *ssa.BasicBlock
-		st   *aiState
+	ai.liveMemo[fn] = live
+	return live
+}
+
+type aiItem struct {
+	b    *ssa.BasicBlock
+	pred *ssa.BasicBlock
+	st   *aiState
+}
+
+// explore runs the worklist over fn's CFG from init. frame == nil: fn is the analysed function (returns are final);
+// otherwise fn is a new helper (see transparent.go) interpreted in place of its call: its returns are collected.
+func (ai *AI) explore(fn *ssa.Function, init *aiState, frame *helperFrame) {
+	visited := map[string]bool{}
+	live := ai.liveOf(fn)
+	// values of enclosing frames stay in the state and are part of its identity
+	work := []aiItem{{fn.Blocks[0], nil, init}}
+	push := func(from *ssa.BasicBlock) func(*ssa.BasicBlock, *aiState) {
+		return func(nb *ssa.BasicBlock, s2 *aiState) {
+			work = append(work, aiItem{nb, from, s2})
+			ai.Transitions++
+		}
 	}
-	work := []item{{ai.fn.Blocks[0], nil, init}}
-	for len(work) > 0 {
+	for len(work) > 0 && !ai.Aborted {
 		it := work[len(work)-1]
 		work = work[:len(work)-1]
 		st := it.st
@@ -256,220 +306,200 @@ func (ai *AI) Run(init *aiState) {
 				}
 			}
 		}
-		key := itoa(it.b.Index) + "|" + st.key(ai.live)
-		if ai.visited[key] {
+		key := itoa(it.b.Index) + "|" + st.keyFor(fn, live)
+		if visited[key] {
 			continue
 		}
-		ai.visited[key] = true
+		visited[key] = true
 		ai.States++
 		if ai.States > ai.maxStates {
 			ai.Aborted = true
 			return
 		}
-		// execute block
-		stuck := false
-		var succs []item
-		for _, in := range it.b.Instrs {
-			if _, isPhi := in.(*ssa.Phi); isPhi {
-				continue
-			}
-			if ai.onInstr != nil {
-				ai.onInstr(st, in)
-			}
-			switch x := in.(type) {
-			case *ssa.BinOp:
-				if a := ai.evalBin(st, x); a != "" {
-					st.env[x] = a
-				} else {
-					delete(st.env, x)
-				}
-			case *ssa.UnOp:
-				switch x.Op {
-				case token.NOT:
-					switch ai.val(st, x.X) {
-					case "true":
-						st.env[x] = "false"
-					case "false":
-						st.env[x] = "true"
-					default:
-						delete(st.env, x)
-					}
-				case token.MUL:
-					if c, ok := ai.cellOf(x.X); ok {
-						if a, has := st.mem[c]; has && a != "" {
-							st.env[x] = a
-						} else {
-							delete(st.env, x)
-						}
-					} else {
-						delete(st.env, x)
-					}
-				case token.ARROW:
-					a := ai.val(st, x.X)
-					bare := x.Referrers() == nil || len(*x.Referrers()) == 0
-					switch {
-					case a == "nil":
-						stuck = true
-					case strings.HasPrefix(a, "tok:"):
-						id := a[4:]
-						if ai.oneShot != nil && ai.oneShot(id) && st.tok[id] == "drained" {
-							stuck = true
-						} else {
-							if ai.onRecv != nil {
-								ai.onRecv(st, id, x, bare)
-							}
-							if ai.oneShot != nil && ai.oneShot(id) {
-								st.tok[id] = "drained"
-							}
-						}
-					}
-					delete(st.env, x)
-				}
-			case *ssa.Store:
-				if c, ok := ai.cellOf(x.Addr); ok {
-					st.mem[c] = ai.val(st, x.Val)
-				}
-			case *ssa.Extract:
-				if a, ok := st.env[x.Tuple]; ok && strings.HasPrefix(a, "sel:") && x.Index == 0 {
-					st.env[x] = "k:" + a[4:]
-				} else {
-					delete(st.env, x)
-				}
-			case *ssa.TypeAssert:
-				if !x.CommaOk {
-					st.env[x] = "nonnil"
-				}
-			case *ssa.Call:
-				if ai.onCall != nil {
-					if a, handled := ai.onCall(st, x); handled {
-						if a == "" {
-							delete(st.env, x)
-						} else {
-							st.env[x] = a
-						}
-						break
-					}
-				}
-				delete(st.env, x)
-			case *ssa.Go, *ssa.Defer:
-				if ai.onCall != nil {
-					ai.onCall(st, x.(ssa.CallInstruction))
-				}
-			case *ssa.Select:
-				// branch per feasible case
-				for i, s := range x.States {
-					a := ai.val(st, s.Chan)
-					if a == "nil" {
-						continue
-					}
-					ns := st.clone()
-					if strings.HasPrefix(a, "tok:") && s.Dir == types.RecvOnly {
-						id := a[4:]
-						if ai.oneShot != nil && ai.oneShot(id) && st.tok[id] != "pending" {
-							continue
-						}
-						if ai.onRecv != nil {
-							ai.onRecv(ns, id, x, false)
-						}
-						if ai.oneShot != nil && ai.oneShot(id) {
-							ns.tok[id] = "drained"
-						}
-					}
-					ns.env[x] = "sel:" + itoa(i)
-					if ai.onSelect != nil {
-						ai.onSelect(ns, x, i)
-					}
-					succs = append(succs, item{nil, nil, ns})
-				}
-				if !x.Blocking {
-					ns := st.clone()
-					ns.env[x] = "sel:-1"
-					succs = append(succs, item{nil, nil, ns})
-				}
-			case *ssa.Return, *ssa.Panic:
-				if ai.onReturn != nil {
-					ai.onReturn(st, in)
-				}
-			}
-			if stuck {
+		first := 0
+		for first < len(it.b.Instrs) {
+			if _, isPhi := it.b.Instrs[first].(*ssa.Phi); !isPhi {
 				break
 			}
-			if len(succs) > 0 {
-				// a select forks the state mid-block: continue each fork from the next instruction by re-running the
-				// remainder of the block; implemented by splitting: selects are always followed by extracts in the
-				// same block, so we finish the block per fork below.
-				break
-			}
+			first++
 		}
-		if stuck {
-			if ai.onReturn != nil {
-				st.flag["stuck"] = true
-				ai.onReturn(st, it.b.Instrs[len(it.b.Instrs)-1])
-			}
-			continue
-		}
-		if len(succs) > 0 {
-			// finish the block for every fork
-			var sel ssa.Instruction
-			selIdx := -1
-			for i, in := range it.b.Instrs {
-				if _, ok := in.(*ssa.Select); ok {
-					sel = in
-					selIdx = i
-				}
-			}
-			_ = sel
-			for _, f := range succs {
-				fs := f.st
-				ai.finishBlock(it.b, selIdx+1, fs, func(nb *ssa.BasicBlock, s2 *aiState) {
-					work = append(work, item{nb, it.b, s2})
-					ai.Transitions++
-				})
-			}
-			continue
-		}
-		ai.branch(it.b, st, func(nb *ssa.BasicBlock, s2 *aiState) {
-			work = append(work, item{nb, it.b, s2})
-			ai.Transitions++
-		})
+		ai.execFrom(it.b, first, st, push(it.b), frame)
 	}
 }
 
-// finishBlock executes instructions from index `from` of b on st (no further selects expected) and branches.
-func (ai *AI) finishBlock(b *ssa.BasicBlock, from int, st *aiState, push func(*ssa.BasicBlock, *aiState)) {
-	for _, in := range b.Instrs[from:] {
+// execFrom executes b.Instrs[from:] on st; a select or an inlined helper call forks the state, each fork continuing
+// with the following instruction; at the end of the block the successors are pushed.
+func (ai *AI) execFrom(b *ssa.BasicBlock, from int, st *aiState, push func(*ssa.BasicBlock, *aiState), frame *helperFrame) {
+	for idx := from; idx < len(b.Instrs); idx++ {
+		in := b.Instrs[idx]
 		if ai.onInstr != nil {
 			ai.onInstr(st, in)
 		}
+		stuck := false
 		switch x := in.(type) {
-		case *ssa.Extract:
-			if a, ok := st.env[x.Tuple]; ok && strings.HasPrefix(a, "sel:") && x.Index == 0 {
-				st.env[x] = "k:" + a[4:]
-			} else {
-				delete(st.env, x)
-			}
 		case *ssa.BinOp:
 			if a := ai.evalBin(st, x); a != "" {
 				st.env[x] = a
 			} else {
 				delete(st.env, x)
 			}
-		case *ssa.Call:
-			if ai.onCall != nil {
-				if a, handled := ai.onCall(st, x); handled && a != "" {
-					st.env[x] = a
-					continue
+		case *ssa.UnOp:
+			switch x.Op {
+			case token.NOT:
+				switch ai.val(st, x.X) {
+				case "true":
+					st.env[x] = "false"
+				case "false":
+					st.env[x] = "true"
+				default:
+					delete(st.env, x)
 				}
+			case token.MUL:
+				if c, ok := ai.cellOf(x.X); ok {
+					if a, has := st.mem[c]; has && a != "" {
+						st.env[x] = a
+					} else {
+						delete(st.env, x)
+					}
+				} else {
+					delete(st.env, x)
+				}
+			case token.ARROW:
+				a := ai.val(st, x.X)
+				bare := x.Referrers() == nil || len(*x.Referrers()) == 0
+				switch {
+				case a == "nil":
+					stuck = true
+				case strings.HasPrefix(a, "tok:"):
+					id := a[4:]
+					if ai.oneShot != nil && ai.oneShot(id) && st.tok[id] == "drained" {
+						stuck = true
+					} else {
+						if ai.onRecv != nil {
+							ai.onRecv(st, id, x, bare)
+						}
+						if ai.oneShot != nil && ai.oneShot(id) {
+							st.tok[id] = "drained"
+						}
+					}
+				}
+				delete(st.env, x)
 			}
-			delete(st.env, x)
 		case *ssa.Store:
 			if c, ok := ai.cellOf(x.Addr); ok {
 				st.mem[c] = ai.val(st, x.Val)
 			}
-		case *ssa.Return, *ssa.Panic:
+		case *ssa.Extract:
+			if a, ok := st.env[x.Tuple]; ok && strings.HasPrefix(a, "sel:") && x.Index == 0 {
+				st.env[x] = "k:" + a[4:]
+			} else {
+				delete(st.env, x)
+			}
+		case *ssa.TypeAssert:
+			if !x.CommaOk {
+				st.env[x] = "nonnil"
+			}
+		case *ssa.Call:
+			// a new helper is interpreted in place of the call (extracting part of the loop into a method must not
+			// change what is decided)
+			depth := 0
+			if frame != nil {
+				depth = frame.depth
+			}
+			if h := newHelperCallee(x); h != nil && depth < 3 {
+				hf := &helperFrame{depth: depth + 1}
+				hs := st.clone()
+				for k, p := range h.Params {
+					if k < len(x.Call.Args) {
+						if a := ai.val(st, x.Call.Args[k]); a != "" {
+							hs.env[p] = a
+						} else {
+							delete(hs.env, p)
+						}
+					}
+				}
+				ai.explore(h, hs, hf)
+				for k, out := range hf.outs {
+					if hf.rets[k] == "" {
+						delete(out.env, x)
+					} else {
+						out.env[x] = hf.rets[k]
+					}
+					ai.execFrom(b, idx+1, out, push, frame)
+				}
+				return
+			}
+			if ai.onCall != nil {
+				if a, handled := ai.onCall(st, x); handled {
+					if a == "" {
+						delete(st.env, x)
+					} else {
+						st.env[x] = a
+					}
+					break
+				}
+			}
+			delete(st.env, x)
+		case *ssa.Go, *ssa.Defer:
+			if ai.onCall != nil {
+				ai.onCall(st, x.(ssa.CallInstruction))
+			}
+		case *ssa.Select:
+			// branch per feasible case
+			for i, s := range x.States {
+				a := ai.val(st, s.Chan)
+				if a == "nil" {
+					continue
+				}
+				ns := st.clone()
+				if strings.HasPrefix(a, "tok:") && s.Dir == types.RecvOnly {
+					id := a[4:]
+					if ai.oneShot != nil && ai.oneShot(id) && st.tok[id] != "pending" {
+						continue
+					}
+					if ai.onRecv != nil {
+						ai.onRecv(ns, id, x, false)
+					}
+					if ai.oneShot != nil && ai.oneShot(id) {
+						ns.tok[id] = "drained"
+					}
+				}
+				ns.env[x] = "sel:" + itoa(i)
+				if ai.onSelect != nil {
+					ai.onSelect(ns, x, i)
+				}
+				ai.execFrom(b, idx+1, ns, push, frame)
+			}
+			if !x.Blocking {
+				ns := st.clone()
+				ns.env[x] = "sel:-1"
+				ai.execFrom(b, idx+1, ns, push, frame)
+			}
+			return
+		case *ssa.Return:
+			if frame != nil {
+				rv := ""
+				if len(x.Results) > 0 {
+					rv = ai.val(st, x.Results[0])
+				}
+				frame.outs = append(frame.outs, st)
+				frame.rets = append(frame.rets, rv)
+				return
+			}
 			if ai.onReturn != nil {
 				ai.onReturn(st, in)
 			}
+		case *ssa.Panic:
+			if ai.onReturn != nil {
+				ai.onReturn(st, in)
+			}
+		}
+		if stuck {
+			if ai.onReturn != nil {
+				st.flag["stuck"] = true
+				ai.onReturn(st, b.Instrs[len(b.Instrs)-1])
+			}
+			return
 		}
 	}
 	ai.branch(b, st, push)
